@@ -6,11 +6,11 @@ SPEC = {'level': 'exploration',
  'stages': [{'kind': 'gen',
              'binary': 'vh_c23',
              'target': 'c23_template',
-             'cases_quick': 400,
-             'cases_thorough': 6000,
-             'min_cases_quick': 200,
-             'floors': {'3-clusters-binding-limit': 0.2, 'template-partial': 0.4, 'cfg-tight-weight': 0.5, 'cfg-tight-sigops': 0.4, 'cfg-minfee': 0.4, 'template-delivered': 0.3,
-                        'template-with-prioritised-tx': 0.08, 'history-with-reorg': 0.4},
+             'cases_quick': 800,
+             'cases_thorough': 9000,
+             'min_cases_quick': 400,
+             'floors': {'3-clusters-binding-limit': 0.25, 'template-partial': 0.4, 'template-all': 0.5, 'cfg-tight-weight': 0.6, 'cfg-tight-sigops': 0.5, 'cfg-minfee': 0.6, 'template-delivered': 0.4,
+                        'template-with-prioritised-tx': 0.06, 'history-with-reorg': 0.5},
              'rule': 'templates on mempool histories; non-trivial = a non-empty template built from a pool of >= 3 clusters that excludes at least one pool transaction'}]}
 
 META = {'level_text': 'Block templates are requested from node::BlockAssembler at random points of generated mempool histories (incl. reorgs, prioritisation, RBF, TRUC, timelocked and '
